@@ -45,7 +45,7 @@ HISTORY_CHECK = True   # last runs of every chunk are re-observed alone in a fre
 
 TIERS = {
     "quick":    {"runs": 5000,  "chunk": 160,  "hash_seeds": [0], "max_steps": 16, "timeout": 900},
-    "thorough": {"runs": 64000, "chunk": 1000, "max_wall": 2400, "hash_seeds": [0, 11], "max_steps": 30, "timeout": 3400},
+    "thorough": {"history_check_cap": 200, "runs": 64000, "chunk": 1000, "max_wall": 2400, "hash_seeds": [0, 11], "max_steps": 30, "timeout": 3400},
     "selftest": {"runs": 128,   "chunk": 16,   "hash_seeds": [0], "max_steps": 16, "timeout": 300},
 }
 REQUIRED_PROBES = {"quick": ["lookup_served_from_cache", "definition_after_first_user", "same_id_redefined",
